@@ -61,6 +61,9 @@ NA_REASONS={
  "C18":"area preservation through kmpDeduplicate/splitRing/dedupeInnersOuters/matchInnersToPolygons: heuristics whose only specification is the property itself (DESIGN.md section 7)",
  "C07":"relation between two whole executions (determinism under map order, ring reversal); no per-call contract expresses it (DESIGN.md section 7)",
  "C13":"observable lives behind database/sql, cgo SQLite and the file system of a CLI run; outside the verified subset (DESIGN.md section 7)",
+ "C10":"fan-out of features over goroutines and unbuffered channels with function values, interface type switches and a WaitGroup: the channel / goroutine extension of the verifier (DESIGN.md 3.9) was not built, so no contract within reach expresses 'every feature reaches every target exactly once, in order'; not claimed with a weaker technique",
+ "C11":"termination and ordering of a pipeline of goroutines (close / wait protocol, absence of leaks and races) for all schedules: whole-history property over concurrency, outside what contracts on sequential code decide; the channel extension of DESIGN.md 3.9 was not built",
+ "C12":"the rows, spatial index, extent and schema live behind database/sql and cgo SQLite (outside the verified subset); the one clause within reach in principle (WriteFeatures hands every received feature to writeFeatures exactly once for any page size) needs channel receive histories, which the verifier does not model (DESIGN.md 3.9 not built)",
  "C16":"encoding/json, marshmallow, validator and defaults are reflection-driven; no contract on them is within reach (DESIGN.md section 7)",
 }
 checks=[]
